@@ -11,6 +11,7 @@ import (
 	"io"
 	"net"
 	"net/http"
+	"net/http/httptest"
 	"os"
 	"strconv"
 	"strings"
@@ -95,6 +96,24 @@ func (b *trackedBody) Close() error { b.once.Do(b.onClose); return b.ReadCloser.
 // seekBody is an io.ReadSeeker that is not one of the specially handled concrete types
 type seekBody struct{ *strings.Reader }
 
+// failSeeker is an io.ReadSeeker whose n-th and later Seek calls fail (n = failFrom)
+type failSeeker struct {
+	*strings.Reader
+	seeks    atomic.Int32
+	failFrom int32
+}
+
+func (f *failSeeker) Seek(off int64, whence int) (int64, error) {
+	if f.seeks.Add(1) >= f.failFrom {
+		return 0, errors.New("seek: upload cannot be rewound")
+	}
+	return f.Reader.Seek(off, whence)
+}
+
+type failSeekCloser struct{ *failSeeker }
+
+func (failSeekCloser) Close() error { return nil }
+
 // plainStream hides every optional interface
 type plainStream struct{ r io.Reader }
 
@@ -110,6 +129,9 @@ func makeBody(kind string, data []byte) io.Reader {
 		return bytes.NewReader(data)
 	case "seeker":
 		return seekBody{strings.NewReader(string(data))}
+	case "seekfail":
+		// a seekable upload that can be rewound once only: the second Seek (the second attempt's rewind) fails
+		return &failSeeker{Reader: strings.NewReader(string(data)), failFrom: 2}
 	case "stream":
 		return plainStream{bytes.NewReader(data)}
 	case "empty":
@@ -132,7 +154,7 @@ func runHTTPScenario(t *testing.T, sc hScenario) (lines []M, problem string) {
 		t0 := time.Now()
 		var mu sync.Mutex
 		add := func(m M) { mu.Lock(); lines = append(lines, m); mu.Unlock() }
-		cfg := M{"script": sc.Script, "maxRetries": sc.MaxRetries, "unitsPerSec": 1, "policies": append([]string{}, sc.Policies...)}
+		cfg := M{"script": sc.Script, "maxRetries": sc.MaxRetries, "unitsPerSec": 1, "policies": append([]string{}, sc.Policies...), "seekFailFrom": map[bool]int{true: 2, false: 0}[sc.BodyKind == "seekfail"]}
 		add(M{"ev": "HConfig", "cfg": cfg, "scenario": sc})
 		data := bytes.Repeat([]byte("0123456789abcdef"), (sc.BodySize+15)/16)[:sc.BodySize]
 		if sc.BodyKind == "none" || sc.BodyKind == "empty" {
@@ -385,6 +407,8 @@ func bodyWrap(r io.Reader) io.ReadCloser {
 		return seekCloser{v, &atomic.Bool{}}
 	case plainStream:
 		return streamCloser{v}
+	case *failSeeker:
+		return failSeekCloser{v}
 	}
 	return io.NopCloser(r)
 }
@@ -435,7 +459,7 @@ func runGRPCScenario(t *testing.T, sc hScenario) (lines []M, problem string) {
 		}
 	}()
 	synctest.Test(t, func(t *testing.T) {
-		cfg := M{"script": sc.Script, "maxRetries": sc.MaxRetries, "unitsPerSec": 1, "policies": append([]string{}, sc.Policies...)}
+		cfg := M{"script": sc.Script, "maxRetries": sc.MaxRetries, "unitsPerSec": 1, "policies": append([]string{}, sc.Policies...), "seekFailFrom": map[bool]int{true: 2, false: 0}[sc.BodyKind == "seekfail"]}
 		lines = append(lines, M{"ev": "HConfig", "cfg": cfg, "scenario": sc})
 		deadline := time.Now().Add(24 * time.Hour)
 		ctx := context.WithValue(context.Background(), ctxKeyT("caller"), "v1")
@@ -595,6 +619,16 @@ func init() {
 			}
 			events += len(res[i])
 		}
+		// outside the bubbles, over the loopback interface: round trippers built WITHOUT an inner transport use the shared default
+		// transport, so repeating executions through fresh round trippers reuses its connections instead of piling them up
+		if nl := nilInnerLines(); nl != nil {
+			for _, l := range nl {
+				b, _ := json.Marshal(l)
+				w.Write(b)
+				w.WriteByte('\n')
+			}
+			events += len(nl)
+		}
 		w.Flush()
 		out.Close()
 		var sample any
@@ -604,4 +638,51 @@ func init() {
 		emit(M{"k": "summary", "n": len(scs), "events": events, "problems": nprob, "sample": sample})
 		_ = fmt.Sprint
 	}
+}
+
+// nilInnerLines runs N sequential requests, each through a NEW failsafe round tripper without an inner transport, against a
+// loopback server and reports how many connections the server saw. nil when the loopback interface is unavailable.
+func nilInnerLines() []M {
+	var mu sync.Mutex
+	conns := 0
+	srv := httptest.NewUnstartedServer(http.HandlerFunc(func(w http.ResponseWriter, r *http.Request) { w.Write([]byte("ok")) }))
+	srv.Config.ConnState = func(c net.Conn, st http.ConnState) {
+		if st == http.StateNew {
+			mu.Lock()
+			conns++
+			mu.Unlock()
+		}
+	}
+	ok := func() (ok bool) {
+		defer func() {
+			if recover() != nil {
+				ok = false
+			}
+		}()
+		srv.Start()
+		return true
+	}()
+	if !ok {
+		return nil
+	}
+	defer srv.Close()
+	const n = 8
+	done := 0
+	for i := 0; i < n; i++ {
+		client := &http.Client{Transport: failsafehttp.NewRoundTripper(nil, failsafehttp.RetryPolicyBuilder().Build())}
+		resp, err := client.Get(srv.URL)
+		if err != nil {
+			continue
+		}
+		io.Copy(io.Discard, resp.Body)
+		resp.Body.Close()
+		done++
+	}
+	http.DefaultTransport.(*http.Transport).CloseIdleConnections()
+	mu.Lock()
+	defer mu.Unlock()
+	sc := M{"bodyKind": "none", "bodySize": 0, "execCtx": "none", "grpc": "", "maxRetries": 2, "method": "GET", "policies": []string{"retryx"}, "reqCtx": "background",
+		"script": []any{}, "via": "nil-inner"}
+	cfg := M{"script": []any{}, "maxRetries": 2, "unitsPerSec": 1, "policies": []string{"retryx"}, "seekFailFrom": 0}
+	return []M{{"ev": "HConfig", "cfg": cfg, "scenario": sc}, {"ev": "NilInner", "executions": done, "conns": conns}}
 }
